@@ -16,8 +16,9 @@ MODEL_CFG = {
     "C02": {"quick": [("MC_q_single.cfg", "ok")], "thorough": [("MC_single.cfg", "ok")]},
     "C03": {"quick": [("MC_q_single.cfg", "ok")], "thorough": [("MC_single.cfg", "ok")]},
     "C04": {"quick": [("MC_q_single.cfg", "ok")], "thorough": [("MC_single.cfg", "ok")]},
-    "C06": {"quick": [("MC_q_two.cfg", "ok"), ("MC_two_f3.cfg", "PubAppendOnly")],
-            "thorough": [("MC_two.cfg", "ok"), ("MC_two_f3.cfg", "PubAppendOnly")]},
+    # C06 also: the compare-and-swap discipline as an inductive invariant (Apalache, unbounded steps)
+    "C06": {"quick": [("MC_q_two.cfg", "ok"), ("MC_two_f3.cfg", "PubAppendOnly"), ("apalache:CasDiscipline.tla", "ok")],
+            "thorough": [("MC_two.cfg", "ok"), ("MC_two_f3.cfg", "PubAppendOnly"), ("apalache:CasDiscipline.tla", "ok")]},
     "C07": {"quick": [("MC_q_dedup.cfg", "ok")], "thorough": [("MC_dedup.cfg", "ok")]},
     # C08: the adversary's actions on object storage (MaxTampers > 0); the design without the
     # authenticated read of the right edge must be refuted (the formulas have teeth)
